@@ -242,6 +242,11 @@ func (ms MatrixSetup) MarshalYAML() (any, error) {
 	if len(ms) == 1 && len(ms[""]) > 0 {
 		return ms[""], nil
 	}
+	if ms == nil {
+		// A nil setup is an empty setup. JSON would otherwise say null, which
+		// cannot be unmarshalled back into a setup.
+		return map[string][]string{}, nil
+	}
 	return map[string][]string(ms), nil
 }
 
